@@ -14,6 +14,11 @@ import (
 //
 // Thread safety: NOT thread-safe. For concurrent usage, each goroutine needs its own instance.
 type CompositeSequenceDFA struct {
+	// skipSafe: after a failed attempt the scan may resume at the byte where it died
+	// (see firstPartDisjoint); otherwise it resumes behind the first run of first-class
+	// bytes (see restartAfterDead).
+	skipSafe bool
+
 	// byteToClass maps each byte to its equivalence class
 	byteToClass [256]byte
 
@@ -46,8 +51,10 @@ func NewCompositeSequenceDFA(re *syntax.Regexp) *CompositeSequenceDFA {
 	// maxMatch=1, or \w{2,8}) requires counting characters per part, which
 	// the DFA doesn't support — fall back to CompositeSearcher backtracking.
 	for _, p := range parts {
-		if p.minMatch == 0 {
-			return nil // Star quantifiers need more complex handling
+		if p.minMatch != 1 {
+			// 0: star quantifiers need more complex handling; > 1: the subset
+			// construction counts "one character seen" as the minimum being met
+			return nil
 		}
 		if p.maxMatch > 0 {
 			return nil // Bounded max requires character counting
@@ -55,10 +62,26 @@ func NewCompositeSequenceDFA(re *syntax.Regexp) *CompositeSequenceDFA {
 	}
 
 	d := &CompositeSequenceDFA{parts: parts}
+	d.skipSafe = firstPartDisjoint(parts)
 	d.buildByteClasses(parts)
 	d.buildDFASubsetConstruction(parts)
 
 	return d
+}
+
+// firstPartDisjoint reports whether no byte of the first part's class belongs to a later part's
+// class. Only then is it exact to resume the scan at the byte where an attempt died: a start
+// position inside the first run shares the fate of the attempt, and no byte of a later part can
+// start a match. With overlapping classes ([a-z]+[0-9]+[a-z]+!) a later part's bytes can.
+func firstPartDisjoint(parts []*charClassPart) bool {
+	for _, p := range parts[1:] {
+		for b := 0; b < 256; b++ {
+			if parts[0].membership[b] && p.membership[b] {
+				return false
+			}
+		}
+	}
+	return true
 }
 
 // buildByteClasses creates byte equivalence classes from the pattern's char classes.
@@ -274,6 +297,7 @@ func (d *CompositeSequenceDFA) SearchAt(haystack []byte, at int) (int, int, bool
 	transitions := d.transitions
 	numClasses := d.numClasses
 	accepting := d.accepting
+	skipSafe := d.skipSafe
 
 	// Skip positions where first byte doesn't match first part
 	// Find the first byte class that can start a match
@@ -309,7 +333,7 @@ func (d *CompositeSequenceDFA) SearchAt(haystack []byte, at int) (int, int, bool
 				if lastAcceptEnd > 0 {
 					return matchStart, lastAcceptEnd, true
 				}
-				start = pos - 1 // Skip: dead byte at pos, outer loop start++ → pos
+				start = d.restartAfterDead(haystack, start, pos, firstPartClass, skipSafe) - 1 // dead byte at pos
 				goto nextStart
 			}
 			if accepting[state] {
@@ -324,7 +348,7 @@ func (d *CompositeSequenceDFA) SearchAt(haystack []byte, at int) (int, int, bool
 				if lastAcceptEnd > 0 {
 					return matchStart, lastAcceptEnd, true
 				}
-				start = pos // Skip: dead byte at pos+1
+				start = d.restartAfterDead(haystack, start, pos+1, firstPartClass, skipSafe) - 1 // dead byte at pos+1
 				goto nextStart
 			}
 			if accepting[state] {
@@ -339,7 +363,7 @@ func (d *CompositeSequenceDFA) SearchAt(haystack []byte, at int) (int, int, bool
 				if lastAcceptEnd > 0 {
 					return matchStart, lastAcceptEnd, true
 				}
-				start = pos + 1 // Skip: dead byte at pos+2
+				start = d.restartAfterDead(haystack, start, pos+2, firstPartClass, skipSafe) - 1 // dead byte at pos+2
 				goto nextStart
 			}
 			if accepting[state] {
@@ -354,7 +378,7 @@ func (d *CompositeSequenceDFA) SearchAt(haystack []byte, at int) (int, int, bool
 				if lastAcceptEnd > 0 {
 					return matchStart, lastAcceptEnd, true
 				}
-				start = pos + 2 // Skip: dead byte at pos+3
+				start = d.restartAfterDead(haystack, start, pos+3, firstPartClass, skipSafe) - 1 // dead byte at pos+3
 				goto nextStart
 			}
 			if accepting[state] {
@@ -392,12 +416,30 @@ func (d *CompositeSequenceDFA) SearchAt(haystack []byte, at int) (int, int, bool
 		}
 
 		// Skip: all bytes up to pos already processed, advance outer loop
-		start = pos - 1
+		start = d.restartAfterDead(haystack, start, pos, firstPartClass, skipSafe) - 1
 
 	nextStart:
 	}
 
 	return -1, -1, false
+}
+
+// restartAfterDead returns the next start position worth trying after the attempt that began at
+// start died at (or ran out of input at) dead. The outer loop increments, so callers subtract one.
+//
+// With a first class disjoint from all later classes the dead byte itself is the next candidate.
+// Otherwise only the start positions inside the first run of first-class bytes are ruled out (the
+// first part of the failed attempt could absorb them, so an attempt from any of them reaches a
+// subset of the configurations the failed one reached): the scan resumes behind that run.
+func (d *CompositeSequenceDFA) restartAfterDead(haystack []byte, start, dead int, first [256]bool, skipSafe bool) int {
+	if skipSafe {
+		return dead
+	}
+	r := start + 1
+	for r < dead && r < len(haystack) && first[haystack[r]] {
+		r++
+	}
+	return r
 }
 
 // firstPartClasses returns a lookup table indicating which bytes can start a match.
@@ -419,7 +461,7 @@ func IsCompositeSequenceDFAPattern(re *syntax.Regexp) bool {
 
 	// Check all parts have minMatch >= 1 and maxMatch == 0 (unbounded)
 	for _, p := range parts {
-		if p.minMatch == 0 {
+		if p.minMatch != 1 {
 			return false
 		}
 		if p.maxMatch > 0 {
